@@ -590,7 +590,7 @@ fn mismatch_violations(prop: &str, res: &Value, class: &str) -> Vec<Violation> {
 }
 
 pub fn c18(ctx: &Ctx) -> i32 {
-    let n_scripts = ctx.tier.pick(400, 12_000);
+    let n_scripts = ctx.tier.pick(1500, 20_000);
     let n_calls = 150;
     let mut rng = Sm::derive(ctx.seed, 0xC18);
     let mut scripts = Vec::new();
@@ -689,7 +689,7 @@ pub fn c18(ctx: &Ctx) -> i32 {
 }
 
 pub fn c19(ctx: &Ctx) -> i32 {
-    let n_scripts = ctx.tier.pick(500, 15_000);
+    let n_scripts = ctx.tier.pick(2000, 25_000);
     let mut rng = Sm::derive(ctx.seed, 0xC19);
     let mut scripts = Vec::new();
     let mut st = LayoutStats { states: 0, asym_states: 0, keys: Vec::new() };
